@@ -348,7 +348,9 @@ func (l *logGater) rec(fn string, id peer.ID, res bool) bool {
 	l.e.log(drv.Step{"ev": "Gate", "g": l.g, "fn": fn, "id": i, "res": res}, nil)
 	return res
 }
-func (l *logGater) InterceptPeerDial(p peer.ID) bool { return l.rec("peerdial", p, l.inner.InterceptPeerDial(p)) }
+func (l *logGater) InterceptPeerDial(p peer.ID) bool {
+	return l.rec("peerdial", p, l.inner.InterceptPeerDial(p))
+}
 func (l *logGater) InterceptAddrDial(p peer.ID, a ma.Multiaddr) bool {
 	return l.rec("addrdial", p, l.inner.InterceptAddrDial(p, a))
 }
